@@ -111,6 +111,7 @@ def judge(case):
     if case.get("decoy"):
         _decoys.loop(case["decoy"], [r_[0] for r_ in case["reqs"] if not r_[0].startswith("@")])
         out.label("decoy")
+        _decoys.note(out)
     stored = {}      # prompt -> snapshot of the reply the cache may serve
     hashes = {}      # prompt -> token hash
     last_pair = {}
@@ -157,8 +158,10 @@ def judge(case):
                 if last_pair.get(prompt) != (e, a):
                     out.label("cache-hit-after-verdict-change")
                     out.nontrivial = True
-                if stored[prompt] != snap:
-                    out.fail("cache:reply-differs-from-original", "cached reply differs from the original reply", dict(detail, original=stored[prompt]))
+                if snap not in stored[prompt]:
+                    out.fail("cache:reply-differs-from-original", "cached reply equals none of the replies this prompt was given when it was evaluated", dict(detail, originals=stored[prompt][-4:]))
+                elif snap != stored[prompt][-1]:
+                    out.label("cache-hit-not-the-latest-evaluation")
             if (ex.calls, ass.calls) != c0:
                 out.fail("cache:agents-consulted-on-hit", "agents were consulted although the reply is flagged cached", detail)
             continue
@@ -188,7 +191,8 @@ def judge(case):
                 if (p2 == prompt) != (h2 == tok.request_hash):
                     out.fail("token:hash-binding", "token hashes of prompts %r / %r: %s / %s" % (p2, prompt, h2, tok.request_hash), detail)
             hashes[prompt] = tok.request_hash
-        if e not in RAISE_KINDS and a not in RAISE_KINDS:
-            stored[prompt] = snap
-            last_pair[prompt] = (e, a)
+        # "the original" of a later cached reply is one of the replies this very prompt got when it was evaluated - which of them a loop keeps
+        # (it may decline to cache errors, or never consult an agent that would have raised) is its own business (benign round 2)
+        stored.setdefault(prompt, []).append(snap)
+        last_pair[prompt] = (e, a)
     return out
